@@ -6,10 +6,10 @@ Open Scope N_scope.
 
 Definition uni_role (r : role) : bool := match r with RUni | RFUni => true | _ => false end.
 
-(* inside one receive attempt, after the flags of the attempt were taken *)
+(* inside one receive attempt, after "am I the only consumer" was read (R3); R1n, R2n load the position *)
 Definition in_att (pc : pcl) : bool :=
   match pc with
-  | R4 | R5 | R6 | R6b | R7 | R8 | R9 | R10 | KC | R11 | R12 => true
+  | R1n | R2n | R4 | R5 | R6 | R6b | R7 | R8 | R9 | R10 | KC | R11 | R12 => true
   | _ => false
   end.
 
@@ -30,7 +30,7 @@ Definition uni_ok (A : agent) : bool :=
 (* the attempt mode is the handle mode; view calls run on single-consumer receivers *)
 Definition is_viewc (cl : call) : bool := match cl with CTryView | CView => true | _ => false end.
 
-Definition after_r2 (pc : pcl) : bool := match pc with R3 => true | _ => in_att pc || in_view pc end.
+Definition after_r2 (pc : pcl) : bool := match pc with R1n | R2n => false | _ => in_att pc || in_view pc end.
 
 Definition att_ok (A : agent) : bool :=
   (negb (after_r2 (a_pc A)) || negb (r_am (a_r A)) || negb (a_multi A))
